@@ -80,8 +80,10 @@ static ssize_t sink_write(void* c, const char* b, size_t n) {
 }
 static int sink_close(void* c) { (void)c; return 0; }
 
+/* c05 != 0: the line is judged for C05 only (OK from close => the sink holds exactly the file of the fault-free run) */
+static int g_sink_c05;
 static void run_sink(hctx* h, fcase* fc, int kind, long k, const uint8_t* good, size_t ngood, int bufmode) {
-    fprintf(h->out, "sink");
+    fprintf(h->out, g_sink_c05 ? "sinkok" : "sink");
     { FILE* save = h->out; char* mem = NULL; size_t msz = 0; FILE* ms = open_memstream(&mem, &msz);
       h->out = ms; print_case(h, fc); fclose(ms); h->out = save; fputs(mem + 2, h->out); free(mem); }
     fprintf(h->out, " kind=%d k=%ld buf=%d", kind, k, bufmode);
@@ -130,7 +132,8 @@ static void run_sink(hctx* h, fcase* fc, int kind, long k, const uint8_t* good, 
     /* the caller carried on after a failed call: OK from close must still mean the sink holds the whole file */
     int close_ok_bytes = 1;
     if (w && kind != 3 && last_close == 0) close_ok_bytes = ((size_t)s.sunk == ngood && memcmp(s.data, good, ngood) == 0);
-    fprintf(h->out, " sunk=%ld failed=%d p_fail_surfaces=%d p_ok_implies_bytes=%d p_close_ok_implies_bytes=%d\n", s.sunk, failed, (!failed) || any_bad, ok_bytes, close_ok_bytes);
+    if (g_sink_c05) fprintf(h->out, " sunk=%ld failed=%d close=%d p_close_ok_implies_file=%d\n", s.sunk, failed, last_close, close_ok_bytes);
+    else fprintf(h->out, " sunk=%ld failed=%d p_fail_surfaces=%d p_ok_implies_bytes=%d p_close_ok_implies_bytes=%d\n", s.sunk, failed, (!failed) || any_bad, ok_bytes, close_ok_bytes);
     h->n_lines++;
     carquet_schema_free(sc); free(s.data);
 }
@@ -228,6 +231,33 @@ static void gen_c18(hctx* h) {
         free(good); free_case(&fc);
     }
 }
+
+/* C05 under a faulty sink: the caller carries on after a failed call (or retries it); whenever close then says OK the
+ * bytes the sink received must be the file (which the `wr` component ties to the model and the layout theorems) */
+static void gen_c05sink(hctx* h) {
+    long hist = h->thorough ? 40 : 6;
+    g_sink_c05 = 1;
+    for (long i = 0; i < hist; i++) {
+        fcase fc; gen_case(h, &fc, 1);
+        size_t ng; uint8_t* good = good_bytes(&fc, &ng);
+        for (int bufmode = 0; bufmode < 3; bufmode++) {
+            for (long k = 0; k < 16; k++) run_sink(h, &fc, 4, k, good, ng, bufmode);
+            for (long k = 0; k < 6; k++) run_sink(h, &fc, 1, k, good, ng, bufmode);
+        }
+        free(good); free_case(&fc);
+    }
+    g_sink_c05 = 0;
+}
+
+static int replay_c05sink(hctx* h, const h_line* l) {
+    if (strcmp(l->op, "sinkok")) return 0;
+    fcase fc; if (parse_case(l, &fc)) { fprintf(stderr, "bad case\n"); return 1; }
+    size_t ng; uint8_t* good = good_bytes(&fc, &ng);
+    g_sink_c05 = 1; run_sink(h, &fc, (int)h_ll(h_in(l, "kind")), (long)h_ll(h_in(l, "k")), good, ng, (int)h_ll(h_in(l, "buf"))); g_sink_c05 = 0;
+    free(good); free_case(&fc); return 1;
+}
+
+const h_component comp_c05sink = { "c05sink", gen_c05sink, replay_c05sink };
 
 static int replay_c18(hctx* h, const h_line* l) {
     if (strcmp(l->op, "trunc") && strcmp(l->op, "sink") && strcmp(l->op, "abort")) return 0;
